@@ -230,7 +230,9 @@ def run(ctx, chk):
                                         % ('contains ":"' if has_colon else 'is empty', 'precedes it' if guarded else 'MISSING'),
                                         func=f.name)
                             elif guarded and not (has_colon or empty):
-                                problems.append('"." segment emitted in front of an ordinary first segment')
+                                chk.bad('naked-guard', 'guard:relative:wrong-segment', p.retloc, 'a "." segment is emitted in front of '
+                                        'the first remaining source segment (%s) on a path that examined a different segment for ":" '
+                                        'or emptiness: the guard decision must look at the segment it protects' % seg, func=f.name)
             rows.setdefault(row, []).append((p, problems))
         for row, items in sorted(rows.items()):
             bad = [(p, pr) for p, pr in items if pr]
